@@ -40,6 +40,12 @@ class RuleInclude(Leaf):
     def exp(self) -> Model | None:
         return self._exp
 
+    @property
+    def _nullable(self) -> bool:  # type: ignore[override]
+        # note: >rule stands for the right hand side of the rule; not
+        #   cached, because the rule is linked after construction
+        return self._exp is not None and self._exp.is_nullable()
+
     def link(self, grammar: Grammar) -> None:
         super().link(grammar)
         name = self.name
